@@ -1,6 +1,6 @@
 use crate::{
   prelude::*,
-  rc::{MutArc, RcDerefMut},
+  rc::{MutArc, RcDeref, RcDerefMut},
 };
 use std::time::Duration;
 
@@ -44,7 +44,7 @@ where
   F: FnMut(&Item) -> Duration,
   ThrottleObserver<O, SD, Item, F>: Observer<Item, Err>,
 {
-  type Unsub = S::Unsub;
+  type Unsub = ZipSubscription<S::Unsub, RcHandler>;
 
   fn actual_subscribe(self, observer: O) -> Self::Unsub {
     let Self {
@@ -54,16 +54,22 @@ where
       edge,
     } = self;
 
-    source.actual_subscribe(ThrottleObserver {
+    // shared with the returned subscription, so that unsubscribing also
+    // cancels a pending trailing task
+    let task_handler: RcHandler = MutArc::own(None);
+    let unsub = source.actual_subscribe(ThrottleObserver {
       observer: MutArc::own(Some(observer)),
       edge,
       duration_selector,
       trailing_value: MutArc::own(None),
-      task_handler: TaskHandle::value_handle(NormalReturn::new(())),
+      task_handler: task_handler.clone(),
       scheduler,
-    })
+    });
+    ZipSubscription::new(unsub, task_handler)
   }
 }
+
+type RcHandler = MutArc<Option<TaskHandle<NormalReturn<()>>>>;
 
 impl<Item, Err, S, SD, F> ObservableExt<Item, Err> for ThrottleOp<S, SD, F> where
   S: ObservableExt<Item, Err>
@@ -76,7 +82,7 @@ pub struct ThrottleObserver<O, SD, Item, F> {
   edge: ThrottleEdge,
   duration_selector: F,
   trailing_value: MutArc<Option<Item>>,
-  task_handler: TaskHandle<NormalReturn<()>>,
+  task_handler: RcHandler,
 }
 
 impl<Item, Err, O, SD, F> Observer<Item, Err>
@@ -94,7 +100,12 @@ where
       if self.edge.tailing {
         *self.trailing_value.rc_deref_mut() = Some(value.clone());
       }
-      if self.task_handler.is_closed() {
+      let window_closed = self
+        .task_handler
+        .rc_deref()
+        .as_ref()
+        .map_or(true, |h| h.is_closed());
+      if window_closed {
         let delay = (self.duration_selector)(&value);
         if self.edge.leading {
           // delivered on the leading edge: not a trailing candidate as well
@@ -105,7 +116,8 @@ where
           throttle_task,
           (self.observer.clone(), self.trailing_value.clone()),
         );
-        self.task_handler = self.scheduler.schedule(task, Some(delay));
+        let handler = self.scheduler.schedule(task, Some(delay));
+        *self.task_handler.rc_deref_mut() = Some(handler);
       }
     }
   }
@@ -119,7 +131,7 @@ where
     if let Some(value) = self.trailing_value.rc_deref_mut().take() {
       self.observer.next(value);
     }
-    self.task_handler.unsubscribe();
+    self.task_handler.clone().unsubscribe();
     self.observer.complete();
   }
 
